@@ -134,6 +134,8 @@ def entries() -> t.List[t.Tuple[str, dict, t.List[dict]]]:
                             'input': 'I', 'output': 'O'})
     add('rec_min4', {'nodes': {'I': P(('x', 'plain')), 'S': P(('p', 'in', 'I')), 'D': P(('p', 'in', 'S')),
                                'O': P(('r', 'rec', {'start': 'S', 'dest': 'D', 'max': 1}))}, 'input': 'I', 'output': 'O'})
+    add('rec_self', {'nodes': {'I': P(('x', 'plain')), 'D': dict(P(('p', 'in', 'I')), use_default=True),
+                               'O': P(('r', 'rec', {'start': 'D', 'dest': 'D', 'max': 2}))}, 'input': 'I', 'output': 'O'})
     add('rec_default', {'nodes': {'I': P(('x', 'plain')), 'S': P(('p', 'in', 'I')),
                                   'D': dict(P(('p', 'in', 'S')), use_default=True),
                                   'O': P(('r', 'rec', {'start': 'S', 'dest': 'D', 'max': 2}))}, 'input': 'I', 'output': 'O'})
